@@ -88,6 +88,9 @@ def check(ctx):
     est = extobj("user_linear", "sklearn.linear_model.Ridge")
     o = ctx.construct(I, st, cls, use_orthogonal_projector=True, linear_estimator=est)
     ctx.call_method(I, st, o, "fit", arr("X", "N", "M"), arr("y", "N", "P"))
+    fits = [e for e in I.events if e["kind"] == "mutate-object" and e["method"] == "fit" and tq.has_sym(e["target"].term, "user_linear")]
+    okf = len(fits) == 1 and not fits[0]["pc"] and fits[0]["args"][0].term.op == "sym" and fits[0]["args"][0].term.args[0] == "X"
+    ctx.ob("NF-PROCRUSTES", "a user-supplied linear estimator is (re)fitted on the data of this fit on every path", okf, f"{[(len(e['pc']), [repr(c)[:60] for c, _ in e['pc']]) for e in fits]}", ctx.site(P.method(cls, "fit")))
     coef = ctx.attr(st, o, "coef_")
     ctx.ob("NF-PROCRUSTES", "a user-supplied linear estimator is the one whose coefficients are used", tq.has_sym(coef.term, "user_linear") and not any(x.op == "new" and x.args[0] == "LinearRegression" for x in tq.walk_all(coef.term)), repr(coef.term)[:160], ctx.site(P.method(cls, "fit")))
 
